@@ -265,12 +265,10 @@ def r3(P: Project, R: Report) -> None:
     R.need(len(data_p) == 1, "per-message function parameters changed")
     data = data_p[0]
 
-    route_names = set()
-    for f in meths.values():
-        # the router: sends the message on the incoming stream
-        if any(isinstance(c, ast.Call) and call_name(c) in incoming_send_calls(P, client) for c in walk_local(f.node)):
-            route_names.add(f.name)
-    R.need(route_names, "anchor: no StdioClient method sends on the incoming stream")
+    # the router, by role: the method the per-message function hands parsed messages to (its delivery helpers are its own business)
+    from . import _stdio
+
+    route_names = {_stdio.router(P).name}
 
     def event_of(call, st, an):
         nm = call_name(call)
